@@ -212,6 +212,29 @@ func TestVerifRace(t *testing.T) {
 			}
 			out += fmt.Sprintf("%T", back.GetPayload())
 		}
+		// the same file name in every functionary's own directory, both wrappers (a link of one step signed
+		// by one key is called the same in every project directory)
+		for w := 0; w < 2; w++ {
+			l := Link{Type: "link", Name: fmt.Sprintf("project-%d", i), Command: []string{"make", fmt.Sprintf("target-%d", i)}}
+			var md Metadata = &Metablock{Signed: l, Signatures: []Signature{}}
+			if w == 1 {
+				e := &Envelope{}
+				if err := e.SetPayload(l); err != nil {
+					return "setpayload error"
+				}
+				md = e
+			}
+			p := fmt.Sprintf("%s/build.776a00e2.link", dirs[i])
+			if err := md.Dump(p); err != nil {
+				return "dump error: " + err.Error()
+			}
+			back, err := LoadMetadata(p)
+			if err != nil {
+				return "load error: " + err.Error()
+			}
+			bl, _ := back.GetPayload().(Link)
+			out += bl.Name
+		}
 		return out
 	}
 	all := func(i int) string { return dumpLoad(i) + record(i) + signVerify(i) + dsse(i) + rules(i) }
